@@ -39,7 +39,7 @@ def shards(tier, seed):
     ecfg = [spaces.cfg_pqr(2, 0, 0), spaces.cfg_pqr(2, 0, 1)] if tier == 'quick' else [spaces.cfg_pqr(*t) for t in spaces.pqr(3)] + [spaces.cfg_pqr(2, 0, 0), spaces.cfg_pqr(1, 1, 0)]
     for c in ecfg:
         for e in EXPRS:
-            for rk in ('symbolic', 'numeric', 'array'):
+            for rk in ('symbolic', 'numeric', 'array', 'numeric-tiny'):
                 sh.append(dict(stratum='expr_as_matrix: linear expressions x key patterns x kind of the other input x res_like', cfg=c, kind='expr', expr=e, rkind=rk))
     return sh
 
@@ -142,9 +142,12 @@ def run_expr(shard, res):
             x = alg.multivector(name='x', keys=kx)
             rvals = [Fraction(2 + ((3 * t + i) % 5), 1 + (t % 2)) * (-1 if t % 3 == 1 else 1) for t in range(len(kr))]
             xvals = [Fraction(1 + ((2 * t + j) % 7), 2 + (t % 3)) * (-1 if t % 2 == 1 else 1) for t in range(len(kx))]
+            if rkind == 'numeric-tiny':
+                # coefficients of magnitude 1e-9 (infinitesimal generators, micro-rotations): entries of A stay what they are
+                rvals = [Fraction(float(v) * 1e-9) for v in rvals]
             if rkind == 'symbolic':
                 Rm = alg.multivector(name='R', keys=kr)
-            elif rkind == 'numeric':
+            elif rkind in ('numeric', 'numeric-tiny'):
                 Rm = nmv(alg, kr, [float(v) for v in rvals])
             else:
                 Rm = nmv(alg, kr, np.array([[float(v), float(v) / 2 + 1] for v in rvals]))
@@ -177,7 +180,7 @@ def run_expr(shard, res):
                         subs = {sympy.Symbol('R' + alg.bin2canon[k][1:]): sympy.Rational(v.numerator, v.denominator) for k, v in zip(kr, rvals)}
                         An = np.array(sympy.Matrix(A).subs(subs).tolist(), dtype=object)
                         An = np.array([[Fraction(int(e.p), int(e.q)) if hasattr(e, 'p') else Fraction(float(e)) for e in row] for row in An.tolist()], dtype=object).reshape(len(ykeys), len(kx))
-                    elif rkind == 'numeric':
+                    elif rkind in ('numeric', 'numeric-tiny'):
                         An = np.array(A, dtype=float).reshape(len(ykeys), len(kx))
                     else:
                         # entries are arrays over the trailing axis of R, or plain scalars where the entry does not depend on R
@@ -197,7 +200,12 @@ def run_expr(shard, res):
                 want = [ynum.get(k, 0) for k in ykeys]
                 if any(v != 0 for v in want):
                     res.nontrivial += 1
-                if any(not close(g, w, 1e-9) for g, w in zip(got, want)):
+                if rkind == 'numeric-tiny':
+                    scale = max([abs(float(w)) for w in want] + [abs(float(g)) for g in got] + [0.0])
+                    differs = any(abs(float(g) - float(w)) > 1e-9 * scale for g, w in zip(got, want))
+                else:
+                    differs = any(not close(g, w, 1e-9) for g, w in zip(got, want))
+                if differs:
                     res.violate(violation(f'expr_as_matrix:{rkind}:A.x!=y', f'{desc}: A . coeffs(x) differs from coeffs(f(R, x))', case, [str(w) for w in want], [str(g) for g in got]))
                     continue
                 # blades of f(R,x) that are non-zero must not be missing from y unless res_like restricts it
